@@ -8,6 +8,7 @@ import (
 	"sync"
 
 	"github.com/thanos-community/promql-engine/execution/model"
+	"github.com/thanos-community/promql-engine/verifhook"
 )
 
 type doneFunc func()
@@ -71,6 +72,7 @@ func (w *Worker) start(done doneFunc, ctx context.Context) {
 			if !ok {
 				return
 			}
+			verifhook.Point("worker.work", w.workerID)
 			w.output <- w.doWork(w.workerID, task.arg, task.in)
 		}
 	}
@@ -82,6 +84,7 @@ func (w *Worker) Send(arg float64, in model.StepVector) error {
 		close(w.input)
 		return w.ctx.Err()
 	default:
+		verifhook.Point("worker.send", w.workerID)
 		w.input <- &input{arg: arg, in: in}
 		return nil
 	}
@@ -92,6 +95,7 @@ func (w *Worker) GetOutput() (model.StepVector, error) {
 	case <-w.ctx.Done():
 		return model.StepVector{}, w.ctx.Err()
 	default:
+		verifhook.Point("worker.output", w.workerID)
 		return <-w.output, nil
 	}
 }
